@@ -19,7 +19,7 @@ fn xml_declaration(data: &[u8]) -> Option<String> {
         data
     };
     let mut ascii = String::new();
-    for &b in data.iter().take(1024) {
+    for &b in data.iter() {
         if b == 0 {
             continue;
         }
